@@ -3,7 +3,7 @@
    and Pandas' null-matching merge (refuted in general, proved when no null key can meet a null key). *)
 From Coq Require Import List Bool Arith ZArith QArith String Lia Permutation.
 Import ListNotations.
-From DA Require Import Base.PyRT Base.Val Model.Sem Model.JoinSpec Proofs.SemBasicP Proofs.JoinP1.
+From DA Require Import Base.PyRT Base.Val Model.Sem Model.JoinSpec Model.JoinEmul Proofs.SemBasicP Proofs.JoinP1.
 Local Open Scope list_scope.
 
 (* ---------- list plumbing *)
@@ -296,10 +296,28 @@ Proof.
                   (fun y x Iy Ix => E x y Ix Iy) rb Ib); reflexivity.
 Qed.
 
+(* what _natural_join_step does: the marker column exactly when both sides have a row with a null key *)
+Lemma has_null_key_row_false cs ks t : has_null_key_row cs ks t = false -> no_null_keys cs ks t.
+Proof.
+  unfold has_null_key_row, no_null_keys. intros H r I.
+  destruct (existsb is_null (key_of cs ks r)) eqn:E; [|reflexivity].
+  assert (existsb (fun r0 => existsb is_null (key_of cs ks r0)) (rows t) = true) as X by (apply existsb_exists; exists r; split; assumption).
+  congruence.
+Qed.
+
+Lemma pandas_join_is_sem_join on_a on_b jt a b : pandas_join on_a on_b jt a b = sem_join false on_a on_b jt a b.
+Proof.
+  unfold pandas_join. destruct (has_null_key_row (cols a) on_a a) eqn:Ha; [destruct (has_null_key_row (cols b) on_b b) eqn:Hb|]; cbn [andb].
+  - reflexivity.
+  - apply pandas_join_no_null_keys. right. apply has_null_key_row_false, Hb.
+  - apply pandas_join_no_null_keys. left. apply has_null_key_row_false, Ha.
+Qed.
+
 Local Open Scope string_scope.
 Definition null_witness_a : table := mktable ["k"; "x"] [[VNull; VNum 1]].
 Definition null_witness_b : table := mktable ["k"; "y"] [[VNull; VNum 2]].
-Lemma pandas_join_null_keys_refuted :
+(* history: the plain merge, without the marker column, pairs the two null keys *)
+Lemma markerless_merge_null_keys_refuted :
   exists on_a on_b jt a b, List.length on_a = List.length on_b /\
     ~ Permutation (rows (sem_join true on_a on_b jt a b)) (sql_join_rows (jt_of jt) (combine on_a on_b) a b).
 Proof.
